@@ -25,7 +25,8 @@ use timespec::{DayDefault, MinDefault};
 macro_rules! unary {
     ($identifier:expr, $transform:expr, $parser:expr) => {
         preceded(
-            $identifier,
+            // The keyword is a whole word: `-names` is an unknown word, not `-name` with a bad argument
+            terminated($identifier, boundary),
             cut_err(preceded(multispace1, cut_err($parser))),
         )
         .context(label($identifier))
@@ -36,7 +37,7 @@ macro_rules! unary {
 macro_rules! binary {
     ($identifier:expr, $transform:expr, $parser_lhs:expr, $parser_rhs:expr, $arguments:expr) => {
         preceded(
-            $identifier,
+            terminated($identifier, boundary),
             cut_err(
                 preceded(
                     multispace1,
